@@ -42,7 +42,7 @@ variable {x μ l α : ℝ}
 
 theorem code_cdf (hl : 0 < l) (hg : ¬ |l * (x - μ) * α| < 1e-12) : esl_gev_cdf x μ l α = gevCdf μ l α x := by
   unfold esl_gev_cdf gevCdf
-  simp only [num_exp, num_log, num_fabs, lit_one, lit_zero]
+  simp only [num_exp, num_log, num_log1p, num_expm1, num_fabs, lit_one, lit_zero]
   rw [if_neg (by norm_num at hg ⊢; exact hg)]
   by_cases h : gevArg μ l α x ≤ 0
   · have h' : 1 + α * (l * (x - μ)) ≤ 0 := h
@@ -57,7 +57,7 @@ theorem code_cdf (hl : 0 < l) (hg : ¬ |l * (x - μ) * α| < 1e-12) : esl_gev_cd
 theorem code_logcdf (hg : ¬ |l * (x - μ) * α| < 1e-12) (hx : 0 < gevArg μ l α x) :
     esl_gev_logcdf x μ l α = log (gevCdf μ l α x) := by
   unfold esl_gev_logcdf gevCdf
-  simp only [num_exp, num_log, num_fabs, lit_one, lit_zero]
+  simp only [num_exp, num_log, num_log1p, num_expm1, num_fabs, lit_one, lit_zero]
   rw [if_neg (by norm_num at hg ⊢; exact hg)]
   have h' : ¬ 1 + α * (l * (x - μ)) ≤ 0 := not_le.mpr hx
   rw [if_neg h', if_neg (not_le.mpr hx), log_exp]
@@ -65,7 +65,7 @@ theorem code_logcdf (hg : ¬ |l * (x - μ) * α| < 1e-12) (hx : 0 < gevArg μ l 
 
 theorem code_pdf (hg : ¬ |l * (x - μ) * α| < 1e-12) : esl_gev_pdf x μ l α = gevPdf μ l α x := by
   unfold esl_gev_pdf gevPdf
-  simp only [num_exp, num_log, num_fabs, lit_one, lit_zero]
+  simp only [num_exp, num_log, num_log1p, num_expm1, num_fabs, lit_one, lit_zero]
   rw [if_neg (by norm_num at hg ⊢; exact hg)]
   by_cases h : gevArg μ l α x ≤ 0
   · have h' : 1 + α * (l * (x - μ)) ≤ 0 := h
@@ -77,7 +77,7 @@ theorem code_pdf (hg : ¬ |l * (x - μ) * α| < 1e-12) : esl_gev_pdf x μ l α =
 theorem code_logpdf (hl : 0 < l) (hg : ¬ |l * (x - μ) * α| < 1e-12) (hx : 0 < gevArg μ l α x) :
     esl_gev_logpdf x μ l α = log (gevPdf μ l α x) := by
   unfold esl_gev_logpdf gevPdf
-  simp only [num_exp, num_log, num_fabs, lit_one, lit_zero]
+  simp only [num_exp, num_log, num_log1p, num_expm1, num_fabs, lit_one, lit_zero]
   rw [if_neg (by norm_num at hg ⊢; exact hg)]
   have h' : ¬ 1 + α * (l * (x - μ)) ≤ 0 := not_le.mpr hx
   rw [if_neg h', if_neg (not_le.mpr hx), log_mul (ne_of_gt hl) (exp_ne_zero _), log_exp]
@@ -98,7 +98,7 @@ theorem beyond_switch {s : ℝ} (h : -0.5 * log 2.2204460492503131e-16 < s) :
 /-- `esl_gev_surv` is within `2.3e-16` of `1 - cdf` (beyond the switch it returns `e^{-lya1}` for `1 - exp(-e^{-lya1})`). -/
 theorem code_surv (hl : 0 < l) (hg : ¬ |l * (x - μ) * α| < 1e-12) : |esl_gev_surv x μ l α - gevSurv μ l α x| ≤ 2.3e-16 := by
   unfold esl_gev_surv gevSurv gevCdf
-  simp only [num_exp, num_log, num_fabs, lit_one, lit_zero]
+  simp only [num_exp, num_log, num_log1p, num_expm1, num_fabs, lit_one, lit_zero]
   rw [if_neg (by norm_num at hg ⊢; exact hg)]
   by_cases h : gevArg μ l α x ≤ 0
   · have h' : 1 + α * (l * (x - μ)) ≤ 0 := h
@@ -121,7 +121,7 @@ theorem code_surv (hl : 0 < l) (hg : ¬ |l * (x - μ) * α| < 1e-12) : |esl_gev_
 
 theorem code_invcdf {p : ℝ} (hα : ¬ |α| < 1e-12) : esl_gev_invcdf p μ l α = gevInvCdf μ l α p := by
   unfold esl_gev_invcdf gevInvCdf
-  simp only [num_exp, num_log, num_fabs, lit_one]
+  simp only [num_exp, num_log, num_expm1, num_fabs, lit_one]
   rw [if_neg (by norm_num at hα ⊢; exact hα)]
 
 end
